@@ -136,6 +136,15 @@ func TestB2C12Codec(t *testing.T) {
 			t.Errorf("B2-FAIL newcodec %v: %v", csr, err)
 			continue
 		}
+		// the representation invariant the deductive contract of Decode assumes (codecOK)
+		if len(codec.nodes) < 1 || len(codec.nodes) > 65000 {
+			t.Errorf("B2-FAIL invariant %v: %d nodes", fmtCSR(csr), len(codec.nodes))
+		}
+		for i, nd := range codec.nodes {
+			if !(nd.bound == 255 || i+1 < len(codec.nodes)) || !(int(nd.child) < len(codec.nodes) || nd.child >= 65532) {
+				t.Errorf("B2-FAIL invariant %v: node %d = %+v of %d", fmtCSR(csr), i, nd, len(codec.nodes))
+			}
+		}
 		if got := codec.CodeSpaceRange(); !got.Equivalent(csr) {
 			t.Errorf("B2-FAIL reported-ranges built from %v reports %v", csr, got)
 		}
